@@ -654,7 +654,7 @@ package corerad
 //@   assigns heap(corerad.terminator) at t.t, ghost.termSet, ghost.termVal, ghost.lockDepth, ghost.done, ghost.notified, ghost.now
 //@   ensures E1 [C20]: result == nil
 //@   opt cancelable [C20]
-//@   opt safety [C20]
+//@   opt safety [C20,C08]
 //@   opt frame [C20]
 
 // One errgroup goroutine per task: runs it with the shared context.
